@@ -389,6 +389,7 @@ type BlockSpec struct {
 	Hold   bool     `json:"hold,omitempty"`
 	Pool    []int   `json:"pool,omitempty"`    // include these of the node's pooled transactions (selectors)
 	Variant bool    `json:"variant,omitempty"` // ... with a differently sized valid witness where one exists (multisig: M+1 signatures)
+	Revert  bool    `json:"revert,omitempty"`  // carries a revert-to-PoW transaction (consensus-mode transition)
 }
 
 func medianTimePast(b *mBlock) uint32 {
@@ -462,6 +463,16 @@ func (s *sim) buildBlock(parent *mBlock, bs *BlockSpec) *mBlock {
 			picked = append(picked, pi)
 		}
 	}
+	// consensus-mode transition (C30): a block carrying a revert-to-PoW
+	// transaction of kind "no block for too long". It costs nothing and spends
+	// nothing; it is valid from RevertToPOWStartHeight on when the block's
+	// timestamp is at least RevertToPOWNoBlockTime after its parent's.
+	var revertTx interfaces.Transaction
+	if bs.Revert {
+		revertTx = transaction.CreateTransaction(common2.TxVersion09, common2.RevertToPOW, 0,
+			&payload.RevertToPOW{Type: payload.NoBlock, WorkingHeight: height}, []*common2.Attribute{}, []*common2.Input{}, []*common2.Output{}, 0, []*pg.Program{})
+		s.c.Fault("block-carries-revert-to-pow")
+	}
 	nPicked := len(picked)
 	for i := 0; i < nPicked+len(bs.Txs); i++ {
 		var info *txInfo
@@ -509,6 +520,10 @@ func (s *sim) buildBlock(parent *mBlock, bs *BlockSpec) *mBlock {
 	}
 	blk := &types.Block{Header: common2.Header{Version: 0, Previous: parent.hash, Height: height, Bits: cfg.PowConfiguration.PowLimitBits}}
 	blk.Transactions = append([]interfaces.Transaction{cb}, txs...)
+	if revertTx != nil {
+		blk.Transactions = append(blk.Transactions, revertTx)
+		v.txs[revertTx.Hash()] = height // findable on the chain that holds this block
+	}
 	if bs.Bad == "dup-tx" && lastFee != nil {
 		// the Byzantine miner who includes a transaction twice also collects its fee twice
 		fees.Add(fees, lastFee)
@@ -525,9 +540,18 @@ func (s *sim) buildBlock(parent *mBlock, bs *BlockSpec) *mBlock {
 		panic(fmt.Sprintf("harness: rewards: %v", err))
 	}
 	if s.v2Regime(height) {
+		// the node's reward assembly looks at the consensus mode of the chain
+		// it is on NOW; a miner extending another branch uses that branch's
+		if outs := blk.Transactions[0].Outputs(); len(outs) >= 3 {
+			if parent.view.pow {
+				outs[0].ProgramHash, outs[2].ProgramHash = *cfg.DestroyELAProgramHash, *cfg.DestroyELAProgramHash
+			} else {
+				outs[0].ProgramHash, outs[2].ProgramHash = *cfg.CRConfiguration.CRAssetsProgramHash, *cfg.DPoSConfiguration.DPoSV2RewardAccumulateProgramHash
+			}
+		}
 		s.tweakCoinbase(blk, bs.Bad, height, miner)
 	}
-	if w := s.labelCoinbase(blk, height, fees); w != "" && selfOK {
+	if w := s.labelCoinbase(blk, height, fees, parent.view.pow); w != "" && selfOK {
 		selfOK, why = false, w
 	}
 	ts := parent.ts + 1 + uint32(mod(bs.Dt, 600))
@@ -540,6 +564,30 @@ func (s *sim) buildBlock(parent *mBlock, bs *BlockSpec) *mBlock {
 	}
 	if ts < mtp+2 {
 		ts = mtp + 2 // generated away from the boundary (DESIGN A.4)
+	}
+	if revertTx != nil {
+		nb := uint32(cfg.DPoSConfiguration.RevertToPOWNoBlockTime)
+		if height >= cfg.DPoSConfiguration.ChangeViewV1Height {
+			nb = uint32(cfg.DPoSConfiguration.RevertToPOWNoBlockTimeV1)
+		}
+		// an honest miner waits until the silence has lasted long enough (if
+		// the simulated clock allows; otherwise the block is too early)
+		if want := parent.ts + nb + 5; want > ts && want <= uint32(s.now().Unix())+600 {
+			ts = want
+		}
+		switch {
+		case height < cfg.DPoSConfiguration.RevertToPOWStartHeight:
+			if selfOK {
+				selfOK, why = false, "revert-to-pow-before-start-height"
+			}
+		case ts-parent.ts < nb:
+			if selfOK {
+				selfOK, why = false, "revert-to-pow-before-no-block-time"
+			}
+		default:
+			s.c.Probe("valid-revert-to-pow-block-built")
+			v.pow = true // for the blocks that follow this one
+		}
 	}
 	sane := true
 	switch bs.Bad {
